@@ -37,12 +37,14 @@ def cases(spec, ctx):
     for i in range(spec["n"]):
         space = {}
         k = ctx.rng.random()
+        if ctx.rng.random() < 0.3:
+            space["allow_missing_matrix"] = True
         if k < 0.15:
-            space = {"lossy_bytes": "min", "lossless": "no"}
+            space.update({"lossy_bytes": "min", "lossless": "no"})
         elif k < 0.25:
-            space = {"lossy_bytes": "huge", "lossless": "no", "maxw": 8, "maxh": 8}
+            space.update({"lossy_bytes": "huge", "lossless": "no", "maxw": 8, "maxh": 8})
         elif k < 0.3:
-            space = {"depth0": True}
+            space["depth0"] = True
         yield {"recipe": configs.random_recipe(ctx.rng, space)}
 
 
@@ -144,6 +146,8 @@ def run_case(case, ctx):
 def floor(agg, tier):
     c = agg["counters"]
     miss = []
+    if c.get("encoder_rejected:MissingQuantizationMatrixError", 0) < (20 if tier == "quick" else 800):
+        miss.append("too few configurations without any quantisation matrix (which the encoder must refuse) were tried")
     need = 1500 if tier == "quick" else 60000
     if c.get("accepted", 0) < need:
         miss.append("fewer than %d accepted encodings observed (%d)" % (need, c.get("accepted", 0)))
